@@ -351,7 +351,7 @@ def run(run: Run):
                     'the INITIALIZING repair uses C03/Model.v effect semantics over the regenerated TransGen.trans']
     run.assumptions += ['TransferManager.transfers never holds two transfers with the same (username, remote_path, direction) (add() deduplicates)',
                         'a process end is modelled by the last completed write (torn shelve files are out of scope)']
-    run.prove(['tr_state'], extra_targets=['theories/C03/Eval.vo', 'theories/C17/Eval.vo'])
+    run.prove(['tr_state', 'tr_transfer'], extra_targets=['theories/C03/Eval.vo', 'theories/C17/Eval.vo'])
     mon = Monitor(run)
     tmp = tempfile.mkdtemp(prefix='verif_c17_')
     read_cases, load_cases, c03_cases, legacy_cases = [], [], [], []
